@@ -62,6 +62,8 @@ fn build_reply(recipe: &str, k: &[u8], spk: &[u8], spk_other: &[u8], client_pka:
         "plen" => { let n: usize = arg.parse().unwrap_or(1); ts_request(None, Some(&seal.seal(&plus1[..n.min(plus1.len() - 1)])), 2) }
         // key + 1 with one bit changed in the k-th byte from the HIGH-order end (the integer is little-endian), validly sealed
         "phigh" => { let k: usize = arg.parse().unwrap_or(0); let mut v = plus1.clone(); let i = v.len() - 1 - k.min(v.len() - 1); v[i] ^= 1; ts_request(None, Some(&seal.seal(&v)), 2) }
+        // the honest reply followed by further bytes in the same TLS record (a stray byte, garbage, a second TSRequest)
+        "trail" => { let mut v = honest.clone(); v.extend(unhex(arg)); v }
         "pext" => { let mut v = plus1.clone(); v.extend(unhex(arg)); ts_request(None, Some(&seal.seal(&v)), 2) }
         // a well-formed TSRequest whose pubKeyAuth token is cut to n bytes (shorter than the 16-byte signature)
         "pkacut" => { let n: usize = arg.parse().unwrap_or(0); ts_request(None, Some(&honest_pka[..n.min(honest_pka.len())]), 2) }
@@ -259,6 +261,7 @@ pub fn generate(thorough: bool, seed: u64, part: (usize, usize), em: &mut Emitte
         for o in offs { recipes.push(format!("off:{}", o)); }
         for n in &[1usize, 2, 16, 100, 269] { recipes.push(format!("plen:{}", n)); }
         for x in &["01", "ff", "0001", "00000000000000000000000001"] { recipes.push(format!("pext:{}", x)); }
+        for x in &["00", "30", "3000", "300ca003020102a305040300010203", "ffffffffffffffff"] { recipes.push(format!("trail:{}", x)); }
         for n in &[0usize, 1, 4, 10, 15, 16, 17] { recipes.push(format!("pkacut:{}", n)); }
         for rc in recipes { let mut c = b.clone(); c.reply = rc; if mine(&mut idx) { run(em, &c); } }
         // truncations: every prefix (thorough) / sampled
@@ -290,7 +293,7 @@ pub fn generate(thorough: bool, seed: u64, part: (usize, usize), em: &mut Emitte
     // mask on an even number of bytes), dummy signatures — also when the CHALLENGE leaves out NEGOTIATE_SIGN,
     // SEAL or ALWAYS_SIGN (the client's verification of the proof does not depend on what the server offers)
     if part.0 == 0 {
-        for (i, drop) in [0u32, 0x10, 0x20, 0x30, 0x8000, 0x8010].iter().enumerate() {
+        for (i, drop) in [0u32, 0x10, 0x20, 0x30, 0x8000, 0x8010, 0x80000, 0x80030].iter().enumerate() {
             let b = base_case(&mut r, i);
             for rc in &["pkaxor:000000000101", "pkaxor:00000000800000000080", "pkaxor:00000000ffff", "pkaxor:000000005a5a5a5a5a5a5a5a", "pkaxor:0000000001010101",
                         "pkaxor:00000000000000000000000001", "pkaxor:01", "sigzero", "badsign", "honest"] {
